@@ -214,6 +214,38 @@ func checkUser(t hx.TB, test, where, ctx string, u user) {
 		}
 	}
 	checkAfterRelisting(t, test, where, ctx, u)
+	checkCopy(t, test, where, ctx, u)
+}
+
+// checkCopy: an instruction copied by value (`c := *inst`, how a client clones an instruction before it
+// rewrites the clone's operands) has an operand view of its own: the slots of the copy are the copy's fields
+// (lists are shared between a shallow copy and its original, as every Go slice is; the scalar operands are
+// not), so a write through a slot of the copy shows in the copy's print.
+func checkCopy(t hx.TB, test, where, ctx string, u user) {
+	rv := reflect.ValueOf(u)
+	if rv.Kind() != reflect.Ptr || rv.Elem().Kind() != reflect.Struct {
+		return
+	}
+	if p := lx.Guard(func() { u.Operands() }); p != nil {
+		return
+	}
+	cp := reflect.New(rv.Elem().Type())
+	cp.Elem().Set(rv.Elem())
+	cu, ok := cp.Interface().(user)
+	if !ok {
+		return
+	}
+	var ops []*value.Value
+	if p := lx.Guard(func() { ops = cu.Operands() }); p != nil {
+		hx.Fail(t, test, "ll", ctx, "%s (%T): Operands() of a copy of the instruction panics: %s", where, u, p)
+	}
+	want := valueFields(cu)
+	for k, o := range ops {
+		if _, ok := want[reflect.ValueOf(o).Pointer()]; !ok {
+			hx.Fail(t, test, "ll", ctx, "%s (%T): slot %d of a copy of the instruction (`c := *inst` after inst.Operands() had been called) is not one of the copy's own fields: a write through it changes another instruction", where, u, k)
+		}
+	}
+	hx.Hist("copied_users")
 }
 
 // relistOperands replaces, through the exported fields of u, every list the user holds by an equal list in
